@@ -142,6 +142,34 @@ def programs(tier, mode):
             for b in A[:5]:
                 out.append(make_prog('s', [a, ('send', 0.25)], [0.25],
                                      second=(c2, [b, ('send', 0)], [0.25])))
+    # byte-identical bundles sent more than once at one logical time (the
+    # same statement repeated, A B A, two routines in unison): the score
+    # lists EVERY bundle, in send order
+    if mode == 'nrt':
+        for c in clocks:
+            for a in [('send', None), ('send', 0), ('send', 0.25),
+                      ('sendm',), ('sendb', 0, 0.5)]:
+                def st(tag, a=a):
+                    if a[0] == 'send':
+                        return ['send', a[1], tag]
+                    if a[0] == 'sendm':
+                        return ['sendm', tag]
+                    return ['sendb', a[1], a[2], tag]
+                for body in ([st(11), st(11)], [st(11), st(12), st(11)],
+                             [st(11), ['yield', 0], st(11)],
+                             [st(11), ['yield', 0.25], st(11), st(11)]):
+                    p = make_prog(c, [], [])
+                    p['routines']['r0'] = body
+                    p['dup'] = True
+                    out.append(p)
+                for c2 in clocks:
+                    p = make_prog(c, [], [])
+                    p['routines']['r0'] = [st(11), ['yield', 0.5], st(12)]
+                    p['routines']['r1'] = [st(11), ['yield', 0.5], st(12)]
+                    p['actors']['main'].append(['play', 'r1', c2, 0])
+                    p['clocks'][c2] = c05.CLOCKSPEC[c2]
+                    p['dup'] = True
+                    out.append(p)
     # a routine stepped by hand (next()) from the main thread, and a clock
     # driven one, whose body takes physical time before it sends: the
     # timetag is the routine's logical time + L, not the send instant
@@ -323,11 +351,17 @@ def check_nrt(prog, res):
     order = []      # execution order of sends = order of 'send' events
     for e in res['trace']:
         if e[0] == 'send':
-            order.append(e[3])
+            order.append((e[1], e[3]))
     bytag = {s['tag']: s for s in sends}
+    # the k-th send of a tag by a sender is the k-th expected one (programs
+    # may repeat a byte-identical send)
+    perkey = {}
+    for s in sends:
+        perkey.setdefault((s['who'], s['tag']), []).append(s)
     exp = []
-    for i, tag in enumerate(order):
-        s = bytag.get(tag)
+    for i, (who, tag) in enumerate(order):
+        q = perkey.get((who, tag))
+        s = q.pop(0) if q else None
         if s is None:
             dis.append(('nrt-send-after-refused-bundle', 'routine ended by '
                         'the refusal', f'send {tag} executed', ''))
